@@ -368,6 +368,16 @@ class Namespace:
 # loop specifications (inductive invariants supplied by contracts)
 
 
+class Formatted:
+    """a symbolic value inside an f-string / str.format / % with its format specification"""
+
+    def __init__(self, value, spec):
+        self.value, self.spec = value, spec
+
+    def __repr__(self):
+        return f"<{self.value!r}:{self.spec}>"
+
+
 class LoopSpec:
     """Invariant for a loop with a symbolic trip count.
 
@@ -1696,6 +1706,9 @@ class Interp:
                 raise Unsupported("super() outside a method")
             first = fn.node.args.args[0].arg
             return SuperProxy(owner, env.vars[first])
+        if isinstance(getattr(f, "__self__", None), str) and getattr(f, "__name__", "") == "format" and hasattr(self, "strformat_hook") \
+                and any(is_sym(a) for a in list(args) + list(kwargs.values())):
+            return self.strformat_hook(f.__self__, args, kwargs)  # "...{:8.3f}...".format(symbolic values)
         return self.call(f, args, kwargs)
 
     def e_Lambda(self, e, env, module):
@@ -1773,7 +1786,8 @@ class Interp:
                 x = self.eval(v.value, env, module)
                 if is_sym(x) or isinstance(x, (Obj, SymStr)) or hasattr(x, "sym_getattr"):
                     sym = True
-                    parts.append(x)
+                    spec = self.eval(v.format_spec, env, module) if v.format_spec is not None else ""
+                    parts.append(Formatted(x, spec) if spec else x)
                 else:
                     spec = ""
                     if v.format_spec is not None:
